@@ -199,6 +199,27 @@ func c16Exec(op string) string {
 	m2 := mxj.Map(r.rebuild(m).(map[string]interface{}))
 	m2["zz_extra"] = "1"
 	ms := mxj.Maps{mv, m2, mv}
+	if seed%3 == 0 {
+		// a nil Map is a member like any other: it encodes as <doc/> and null
+		var nilMap mxj.Map
+		nx, _ := nilMap.Xml()
+		nxi, _ := nilMap.XmlIndent(pre, ind)
+		nj, _ := nilMap.Json()
+		nji, _ := nilMap.JsonIndent(pre, ind)
+		msn := mxj.Maps{mv, nilMap, mv}
+		if s, err := msn.XmlString(); err != nil || s != string(x0)+string(nx)+string(x0) {
+			note("Maps.XmlString with a nil member is not the concatenation of the Xml encodings")
+		}
+		if s, err := msn.XmlStringIndent(pre, ind); err != nil || s != string(xi0)+string(nxi)+string(xi0) {
+			note("Maps.XmlStringIndent with a nil member is not the concatenation of the XmlIndent encodings")
+		}
+		if s, err := msn.JsonString(); err != nil || s != string(j0)+string(nj)+string(j0) {
+			note("Maps.JsonString with a nil member is not the concatenation of the Json encodings")
+		}
+		if s, err := msn.JsonStringIndent(pre, ind); err != nil || s != string(ji0)+"\n"+string(nji)+"\n"+string(ji0) {
+			note("Maps.JsonStringIndent with a nil member is not the newline-joined JsonIndent encodings")
+		}
+	}
 	x2, _ := m2.Xml()
 	xi2, _ := m2.XmlIndent(pre, ind)
 	j2, _ := m2.Json()
